@@ -15,22 +15,22 @@ CHECKS = {
 CHECKS.update({
     "C01": dict(
         technique="Coq model of Searcher::visit_dir (gates and queue discipline regenerated from searcher.rs) + refinement proofs to a textbook pre-order/level-order listing; differential test of the binary's exact row sequence against the model on generated trees",
-        text="The walker is modelled state for state (found, visited_inodes, dir_queue, error_count) in model/Walk.v with its gate expressions regenerated from the source by tools/rs2v; theorems relate it to the window-filtered pre-order / level-order listing for all trees, roots and depth windows. On every run the real binary's row sequence on random trees (all entry kinds, root spellings, windows, bfs/dfs) is compared with the model and with an independent recursive listing.",
+        text="The walker is modelled state for state (found, visited_inodes, dir_queue, error_count) in model/Walk.v with its gate expressions regenerated from the source by tools/rs2v; theorems relate it to the window-filtered pre-order / level-order listing for all trees, roots and depth windows. On every run the real binary's row sequence on random trees (all entry kinds, root spellings, windows, bfs/dfs) is compared with the model and with an independent recursive listing. Directory names containing a backslash, roots with a trailing slash and - for the `symlinks` clause - links to directories outside and inside the root (every entry once, by real identity) are part of the generated trees.",
         note="Not verified: canonicalize/read_dir/inode uniqueness (kernel), supplied to the model by the observer. Trusted: Coq kernel, rs2v, Python observer.",
         design="6 C01"),
     "C05": dict(
         technique="Coq proof (permutation + sortedness of the TopN buffer under the Criteria comparator, a proved total preorder) + differential test of the real TopN/Criteria (harness) and of the binary's ORDER BY against the model",
-        text="C05_permutation / C05_sorted / C05_cmp_total / C05_cmp_trans hold for every insertion sequence and key list; the real util::TopN<Criteria<String>,String> (through #[path] inclusion) and the binary's ordered output are compared exactly with the model's stable order on generated trees with many ties.",
+        text="C05_permutation / C05_sorted / C05_cmp_total / C05_cmp_trans hold for every insertion sequence and key list; the real util::TopN<Criteria<String>,String> (through #[path] inclusion) and the binary's ordered output are compared exactly with the model's stable order on generated trees with many ties. Keys include expressions with the number first (`1 + size`), date keys, digit-only names (text order), hard-link counts of several digits; the witnesses of the repaired findings F11 / F12 / F46 are replayed.",
         note="Numeric keys restricted to canonical digit strings in the correspondence; key values themselves are C04's subject. Trusted: Coq kernel, harness, Python generators.",
         design="6 C05"),
     "C06": dict(
         technique="Coq proof that the limited TopN buffer equals firstn n of the unlimited one (all insertion sequences) + exhaustive-over-N differential test of the binary",
-        text="C06_topn_prefix is a literal equality proved by induction over the insertion sequence for any comparator; the walker's limit gates are regenerated from the source. For every generated (tree, query) pair every N in 1..M+2 is run on the real binary and compared with the prefix the theorem predicts and with the property's own conditions (count, sub-multiset, key sequence).",
+        text="C06_topn_prefix is a literal equality proved by induction over the insertion sequence for any comparator; the walker's limit gates are regenerated from the source. For every generated (tree, query) pair every N in 1..M+2 is run on the real binary and compared with the prefix the theorem predicts and with the property's own conditions (count, sub-multiset, key sequence). Grouped queries (LIMIT counts the group rows), archive members, several roots, dfs, and select lists that mention a column only inside a function argument (no LIMIT = every entry) are covered; F67 repaired, F68 recorded.",
         note="Unordered LIMIT relies on getdents order being the same in two runs over an unchanged directory. Trusted: Coq kernel, rs2v, harness.",
         design="6 C06"),
     "C12": dict(
         technique="Coq proof that the regex produced by the (regenerated) glob/LIKE tables, interpreted by a verified derivative matcher, decides the textbook glob/LIKE relation for all patterns and subjects + differential test of the binary's eight string operators",
-        text="C12_glob / C12_like hold for every pattern and subject with no side condition (after the fix commits for + { } | \\, LIKE '?', and newline); the matcher is proved correct against its denotational semantics; replacement tables, prefix/suffix and is_glob characters are re-extracted from util/glob.rs on every run. The binary is run on file names over the property's alphabet with derived patterns for all eight operators.",
+        text="C12_glob / C12_like hold for every pattern and subject with no side condition (after the fix commits for + { } | \\, LIKE '?', and newline); the matcher is proved correct against its denotational semantics; replacement tables, prefix/suffix and is_glob characters are re-extracted from util/glob.rs on every run. The binary is run on file names over the property's alphabet with derived patterns for all eight operators. Strict operators get wildcard patterns (read literally), patterns with overlapping prefix and suffix, one pattern text under two operator families in one query, and an independent regular-expression engine judges =~ / !=~ on the generated pattern shapes.",
         note="(?i) is ASCII case folding in the model; the regex crate's Unicode simple case folding and regex syntax outside the modelled subset are not covered (patterns outside the subset are counted and skipped). Trusted: Coq kernel, rs2v, lexer quoted-string rule (C11).",
         design="6 C12"),
     "C09": dict(
@@ -40,23 +40,23 @@ CHECKS.update({
         design="6 C09"),
     "C13": dict(
         technique="Coq proofs over the regenerated DateTime comparison table (interval semantics, trichotomy), a model of parse_datetime with interval theorems for all valid dates, and a calendar proved correct for all of Z + differential test on an mtime grid",
-        text="C13_comparisons shows the table extracted from Searcher::conforms equals closed-interval semantics for all eight operators; C13_trichotomy and companions are proved for all t; literal-to-interval theorems hold for every valid date at four precisions and both separators; the calendar round trips hold for every day number. On every run files with mtimes at a-1, a, a+1, b-1, b, b+1 around each literal are queried with all eight operators.",
+        text="C13_comparisons shows the table extracted from Searcher::conforms equals closed-interval semantics for all eight operators; C13_trichotomy and companions are proved for all t; literal-to-interval theorems hold for every valid date at four precisions and both separators; the calendar round trips hold for every day number. On every run files with mtimes at a-1, a, a+1, b-1, b, b+1 around each literal are queried with all eight operators. The grid includes entry times before 1970 and sub-second parts; relative literals (-N, +N, today, yesterday) are judged against the date read at run time.",
         note="Fixed UTC offset (TZ=UTC); tz database, DST and chrono_english free-form dates are outside the model. The clock is read by the check and passed to the model. Trusted: Coq kernel, rs2v, os.utime/os.lstat.",
         design="6 C13"),
     "C17": dict(
         technique="Coq proofs: fault isolation of the walker model (rows of the faulty run = rows of the fault-free run minus what lies below unlistable directories; one error per such directory) and 'no stdout write site propagates its error' over write sites re-classified from the source on every run + differential test as uid 65534 and pipe-closing at every offset",
-        text="C17_isolation (depth-first) and C17_isolation_bfs (breadth-first, the default mode) are proved for every tree and set of unlistable directories over model/Walk.v; C17_pipe_never_panics quantifies over every sequence of writes and every failing write, using the classification (guarded / ignored / propagated) that tools/rs2v recomputes from searcher.rs; statuses come from main.rs. The binary is run as an unprivileged user on trees with unlistable directories and unreadable files, and with the reader closing stdout after k bytes for many k in six formats.",
-        note="Partial: which write the kernel fails depends on LineWriter buffering (the theorem covers all); permission semantics are the kernel's (the observer computes listability from mode bits for uid 65534). C17_isolation is proved for dfs; bfs rows follow by the permutation theorem only. Opening a FIFO for a content column blocks (F47, known finding) and is excluded.",
+        text="C17_isolation (depth-first) and C17_isolation_bfs (breadth-first, the default mode) are proved for every tree and set of unlistable directories over model/Walk.v; C17_pipe_never_panics quantifies over every sequence of writes and every failing write, using the classification (guarded / ignored / propagated) that tools/rs2v recomputes from searcher.rs; statuses come from main.rs. The binary is run as an unprivileged user on trees with unlistable directories and unreadable files, and with the reader closing stdout after k bytes for many k in six formats. Also: aggregates over a column that is empty for an unreadable file, fault-free trees searched with `symlinks` (status 0, empty stderr), failing roots, unopenable archives.",
+        note="Partial: which write the kernel fails depends on LineWriter buffering (the theorem covers all); permission semantics are the kernel's (the observer computes listability from mode bits for uid 65534). C17_isolation (dfs) and C17_isolation_bfs are both proved. Opening a FIFO for a content column blocks (F47, known finding) and is excluded.",
         design="6 C17"),
     "C19": dict(
         technique="Coq proofs over the walker model (member rows exactly once after their archive; ordinary rows unchanged; limit gates regenerated from the source) + differential test on generated zip archives incl. corrupt ones",
-        text="C19_ordinary_rows_unchanged / C19_members_once / C19_walk / C19_walk_bfs hold for every tree and listing; the member-loop gate is regenerated from searcher.rs. The binary is run on trees with archives written by Python zipfile (all file types and modes, dates in every month, mixed-case extensions, corrupt and truncated archives) and compared with the model row for row and with the stored member attributes.",
+        text="C19_ordinary_rows_unchanged / C19_members_once / C19_walk / C19_walk_bfs hold for every tree and listing; the member-loop gate is regenerated from searcher.rs. The binary is run on trees with archives written by Python zipfile (all file types and modes, dates in every month, mixed-case extensions, corrupt and truncated archives) and compared with the model row for row and with the stored member attributes. Names that are an extension (`.zip`), links with archive names, mindepth windows and a configuration file without archive settings are part of the scenarios.",
         note="Partial: the zip crate's parser is not modelled; the listing of a readable archive is an input. Trusted: Python zipfile as the oracle of what was stored.",
         design="6 C19"),
     "C02": dict(
         technique="Coq theorems over the typed comparison tables regenerated from Searcher::conforms and over a model of the literal's reading (Variant::to_int: i64, then parse_filesize with the regenerated ladder) + differential test of atomic WHERE conditions against lstat attributes, against those tables and of to_int against the model",
-        text="C02_int_literal_with_unit (for every attribute value, operator, integer and documented unit in any spelling, `column OP <integer><unit>` is the numeric comparison with integer x documented multiplier), C02_int_literal_plain / _negative, the Int / Bool / DateTime comparison tables (C02_int_table, C02_bool_table, C02_bool_words, C02_between_inclusive), all over definitions re-extracted from the source on every run; every generated atomic condition (all spellings of the eight comparison operators, unit literals, negative literals, boolean words, BETWEEN, column-vs-column, quoted literals that spell columns / functions / Display texts) is run on the binary and compared with the comparison evaluated on the entry's lstat attributes and with the regenerated tables; Variant::to_int (harness) is compared with model.Conforms.to_int.",
-        note="Partial: Variant coercions (to_int fallbacks) are exercised by the differential test only; negative literals (F43, fixed) and quoted literals that spell a column, a function or the Display text of the left-hand expression (F44, fixed) are inside the generated domain; the empty literal (F45) is a recorded finding. Pattern operators are C12's, dates C13's.",
+        text="C02_int_literal_with_unit (for every attribute value, operator, integer and documented unit in any spelling, `column OP <integer><unit>` is the numeric comparison with integer x documented multiplier), C02_int_literal_plain / _negative, the Int / Bool / DateTime comparison tables (C02_int_table, C02_bool_table, C02_bool_words, C02_between_inclusive), all over definitions re-extracted from the source on every run; every generated atomic condition (all spellings of the eight comparison operators, unit literals, negative literals, boolean words, BETWEEN, column-vs-column, quoted literals that spell columns / functions / Display texts) is run on the binary and compared with the comparison evaluated on the entry's lstat attributes and with the regenerated tables; Variant::to_int (harness) is compared with model.Conforms.to_int. Also inside the generated domain: LIKE / glob patterns derived from the attribute values (textbook matcher; names with line breaks), date literals of day / hour / minute / second precision, the mode string of every kind of entry (socket, device nodes), line_count over files longer than a read block.",
+        note="Partial: Variant coercions (to_int fallbacks) are exercised by the differential test only; negative literals (F43, fixed) and quoted literals that spell a column, a function or the Display text of the left-hand expression (F44, fixed) are inside the generated domain; the empty literal (F45) is a recorded finding. Regular-expression operators are C12's, the date grid C13's.",
         design="6 C02"),
     "C03": dict(
         technique="Coq proofs: negation (operator table regenerated from operators.rs + AND/OR swap) is the complement on every condition tree over well-typed atoms, De Morgan, double negation; and the PARSER theorem: for every formula over AND / OR / NOT / brackets rendered with minimal bracketing, the model of Parser::parse_expr (with the parser's own fuel) returns a tree whose meaning under Searcher::conforms is the formula's Boolean denotation + bounded-exhaustive differential test of result sets",
@@ -70,12 +70,12 @@ CHECKS.update({
         design="6 C20"),
     "C10": dict(
         technique="Coq model of the lexer and the recursive-descent parser (tables regenerated from the source) with PROVED totality: the lexer's iteration bound and, for every token list and argument vector, the parser ends in a query or a status-2 diagnostic - never a panic site, never out of its own fuel + differential test of outcome, error message and whole AST against the real lexer/parser, and of exit status / panic / hang on the binary",
-        text="C10_lexer_total bounds the lexer's iterations for every argument vector; C10_parser_total / C10_parser_total_tokens / C10_parse_expr_total: model/Parser.v mirrors parser.rs with every unwrap / index / underflow as an explicit Panic outcome and loops on fuel, and for EVERY input the outcome is Ok or Exit2 (weakest-precondition proof, fuel linear in the remaining tokens). On every run thousands of argument vectors (valid queries, token soups, mutations, every function with bad arguments, bad literals incl. the former crash inputs) are run through the real lexer+parser and compared with the model, and through the binary: status 0, 1 or 2 within 10 s, no panic text, no row after a parse-time rejection.",
+        text="C10_lexer_total bounds the lexer's iterations for every argument vector; C10_parser_total / C10_parser_total_tokens / C10_parse_expr_total: model/Parser.v mirrors parser.rs with every unwrap / index / underflow as an explicit Panic outcome and loops on fuel, and for EVERY input the outcome is Ok or Exit2 (weakest-precondition proof, fuel linear in the remaining tokens). On every run thousands of argument vectors (valid queries, token soups, mutations, every function with bad arguments, bad literals incl. the former crash inputs) are run through the real lexer+parser and compared with the model, and through the binary: status 0, 1 or 2 within 10 s, no panic text, no row after a parse-time rejection. The vector pool also holds arithmetic over zero divisors and i64 extremes, impossible date literals wherever a date is read, aggregates over NaN / infinite / text values, and ORDER BY x LIMIT n over every arrival order of the tree.",
         note="Partial: the machine stack is not modelled (known finding F51: nesting thousands of levels deep overflows it); evaluation-time aborts (function arguments, literals) are covered by the models of C13/C16 (parse_datetime_never_panics, wrong_kind_never_panics) and on the binary; the `~` root path is unmodelled.",
         design="6 C10"),
     "C07": dict(
         technique="Coq model of get_aggregate_value (f64 via primitive floats, integer parts in Z) with exactness theorems for COUNT/SUM/MIN/MAX and the textbook-variance theorem in Q + differential test of aggregate queries against exact rational arithmetic",
-        text="count/sum/min/max theorems hold for every buffer of canonical integers (overflow stated), the variance loop is proved equal to the textbook formula in exact arithmetic; every generated aggregate query (all nine functions and spellings, five numeric columns, WHERE filters, 0/1/2/many rows) is compared with exact values computed from the same query without aggregates.",
+        text="count/sum/min/max theorems hold for every buffer of canonical integers (overflow stated), the variance loop is proved equal to the textbook formula in exact arithmetic; every generated aggregate query (all nine functions and spellings, five numeric columns, WHERE filters, 0/1/2/many rows) is compared with exact values computed from the same query without aggregates. One directory of about 520 sparse files adds up to more than 2^53 (SUM stays exact).",
         note="f64 rounding of AVG/VAR/STDDEV is compared with a 1e-11 relative tolerance on the binary and bit-exactly through the harness; no error-bound theorem for the float results.",
         design="6 C07"),
     "C08": dict(
@@ -85,7 +85,7 @@ CHECKS.update({
         design="6 C08"),
     "C11": dict(
         technique="Coq proofs over tables regenerated from the source and alias groups regenerated from docs/usage.md (every documented alias resolves to one constructor and lexes as the right token class; name lookups are invariant under any re-casing, for all strings) + differential test of parsed queries and rows across renderings",
-        text="C11_doc_*_aliases / C11_doc_*_lex are decided by computation over the regenerated tables and the lexer model; C11_case_insensitive is proved for every string and re-casing function. On every run generated valid queries are rendered with every alias of every aliased token, case variants of every word, both bracket styles, optional tokens, full and partial argument splits; the real parser's Query and the binary's output must be identical to the canonical rendering's.",
+        text="C11_doc_*_aliases / C11_doc_*_lex are decided by computation over the regenerated tables and the lexer model; C11_case_insensitive is proved for every string and re-casing function. On every run generated valid queries are rendered with every alias of every aliased token, case variants of every word, both bracket styles, optional tokens, full and partial argument splits; the real parser's Query and the binary's output must be identical to the canonical rendering's. Always run on the binary: with / without the leading `select`, every alias of the safe columns as the first word of the command line, argument-less functions bare / `()` / `{}` next to an arithmetic symbol, and queries that mention the program's own option words (F66, repaired).",
         note="Known finding F23: with several arguments the search root extends to the end of its argument, so partial splits that leave words after the root in the same argument change the query; the generator keeps the root alone in its argument and the witness is replayed. Unicode lower-casing of keywords is modelled as ASCII (+ Kelvin sign).",
         design="6 C11"),
     "C14": dict(
@@ -95,17 +95,17 @@ CHECKS.update({
         design="6 C14"),
     "C15": dict(
         technique="Coq proofs over the model of the parser and of the Display text of expressions: for EVERY arithmetic expression (numbers, columns, leading minus, + - * / %), rendering with exactly the brackets the documented precedence/associativity requires and parsing with the model of Parser::parse_add_sub (parser's own fuel) returns that very tree; the Display text that keys the per-row value cache is injective on such expressions + executable model of the whole pipeline with witnesses + differential test of select lists and WHERE expressions",
-        text="C15_parser_precedence_assoc (all expressions, any position in any token list), C15_cache_key_injective / C15_cache_key_readable (two different expressions never share a cache slot), C15_operator_table (ArithmeticOp::calc as regenerated), C15_parse_witnesses (through lexer, parser and evaluator). On every run random expressions to depth 4 in select lists of 1-5 columns are evaluated by the binary and compared with binary64 arithmetic (oracle), with the same column selected alone, and with the model pipeline; WHERE on expressions likewise.",
-        note="Function calls, quoted strings and the word operators (plus, mul, ...) are outside the rendered language of the round-trip theorem (covered by the differential test). f64 % is compared with the oracle only. Literals are plain numbers (unit literals inside arithmetic go through parse_filesize, C14).",
+        text="C15_parser_precedence_assoc (all expressions, any position in any token list), C15_cache_key_injective / C15_cache_key_readable (two different expressions never share a cache slot), C15_operator_table (ArithmeticOp::calc as regenerated), C15_parse_witnesses (through lexer, parser and evaluator). On every run random expressions to depth 4 in select lists of 1-5 columns are evaluated by the binary and compared with binary64 arithmetic (oracle), with the same column selected alone, and with the model pipeline; WHERE on expressions likewise. WHERE with two comparisons over one expression (AND / OR / BETWEEN) is covered; F61 and F65 are recorded findings.",
+        note="Function calls, quoted strings and the word operators (plus, mul, ...) are outside the rendered language of the round-trip theorem (covered by the differential test). f64 % is C fmod, computed exactly in the model (lib/F64.fmod). Literals are plain numbers (unit literals inside arithmetic go through parse_filesize, C14).",
         design="6 C15"),
     "C16": dict(
         technique="Coq model of function::get_value (model/Funcs.v; UTF-8, base64, Unicode White_Space, case tables read off the real code) with per-function theorems against a documentation-level spec (spec/FuncsSpec.v) for every argument string, and a proved no-crash theorem + differential test of the real get_value against the model and against an independent Python oracle, and of nested calls on the binary",
-        text="40 theorems (props/C16.v): LENGTH counts characters; TRIM/LTRIM/RTRIM remove exactly the Unicode White_Space; SUBSTR equals the 1-based / from-the-end spec for every i32 position; REPLACE is leftmost non-overlapping replacement; TO_BASE64 is RFC 4648 of the UTF-8 bytes and FROM_BASE64 inverts it on every text; BIN/HEX/OCT are the positional numerals of z mod 2^64; LEAST/GREATEST bounds; FORMAT_TIME units; YEAR/MONTH/DAY/DOW on canonical dates; wrong_kind_never_panics for every function and argument. On every run the real get_value is compared call by call with the model (outcome class, type, text, diagnostic), with a Python oracle, and compositions to depth 3 on the binary.",
+        text="40 theorems (props/C16.v): LENGTH counts characters; TRIM/LTRIM/RTRIM remove exactly the Unicode White_Space; SUBSTR equals the 1-based / from-the-end spec for every i32 position; REPLACE is leftmost non-overlapping replacement; TO_BASE64 is RFC 4648 of the UTF-8 bytes and FROM_BASE64 inverts it on every text; BIN/HEX/OCT are the positional numerals of z mod 2^64; LEAST/GREATEST bounds; FORMAT_TIME units; YEAR/MONTH/DAY/DOW on canonical dates; wrong_kind_never_panics for every function and argument. On every run the real get_value is compared call by call with the model (outcome class, type, text, diagnostic), with a Python oracle, and compositions to depth 3 on the binary. Empty needles of REPLACE, NaN arguments of LEAST / GREATEST, zero for BIN / OCT / HEX and month-end dates are in the call pools.",
         note="Unmodelled (hooks in the model, counted and skipped in the comparison): libm pow/ln/exp outside exact cases, case mapping outside ASCII/Latin-1/Ext-A/Greek/Cyrillic/caseless ranges and the Final_Sigma rule, chrono_english free-form dates. abs_nonneg and least_greatest_bounds use the standard library's FloatAxioms (abs_spec, ltb_spec) for the kernel's primitive floats. SUBSTR length 0 means `to the end` and POWER without exponent returns 1 (kept visible as theorems).",
         design="6 C16"),
     "C18": dict(
         technique="Coq proofs over an executable graph model of visit_dir with the symlinks option (visited_dirs, visited_inodes keyed by the target's inode, gates regenerated from the source): termination for EVERY graph with an explicit fuel bound, one traversal per real directory, exactly the reachable directories, every entry reported once + differential test on link-decorated trees incl. cycles, chains, mutual and self links",
-        text="C18_terminates / C18_fuel_irrelevant (any graph, gates, order, limit), C18_once (no inode marked twice, no directory read twice), C18_only_reachable, C18_exactly_the_reachable_directories (no depth limit), C18_rows (rows = permutation of the listings of the directories read). On every run trees decorated with links of every kind are searched with and without the option, bfs and dfs: status 0, every (reachable real directory, entry) pair exactly once, nothing from behind a link without the option, exactly the model's row sequence on the observed graph - the model run with the theorem's own fuel bound, the observed graph tested for the theorem's hypothesis wf_graph.",
+        text="C18_terminates / C18_fuel_irrelevant (any graph, gates, order, limit), C18_once (no inode marked twice, no directory read twice), C18_only_reachable, C18_exactly_the_reachable_directories (no depth limit), C18_rows (rows = permutation of the listings of the directories read). On every run trees decorated with links of every kind are searched with and without the option, bfs and dfs: status 0, every (reachable real directory, entry) pair exactly once, nothing from behind a link without the option, exactly the model's row sequence on the observed graph - the model run with the theorem's own fuel bound, the observed graph tested for the theorem's hypothesis wf_graph. Windows mindepth 0-2 x maxdepth 0/2/3, roots deeper than the directories links lead to, and rings of links at the edge of the window are generated; under a window the plain rows must still all appear, none twice.",
         note="Completeness needs path_functional (a spelled path names one directory), true of a real file system but not tested per case; the depth window behind followed links is computed from canonical paths by the source and only reproduced, not specified.",
         design="6 C18"),
 })
